@@ -96,9 +96,15 @@ def flat_items(c):
     for it in c:
         yield it
         for k in ("def", "c", "y", "n", "a", "b", "v", "dflt"):
+            if k == "c" and it.get("k") == "x":
+                yield from flat_items(it["c"])
+                continue
             if isinstance(it.get(k), list):
                 yield from flat_items(it[k])
         for a in it.get("args", []) or []:
+            if isinstance(a, list):
+                yield from flat_items(a)
+                continue
             yield from flat_items(a["val"])
             yield from flat_items(a["key"])
         for cs in it.get("cases", []) or []:
